@@ -203,7 +203,7 @@ func runCase(t hx.TB, c c3case, dir string) {
 			ln, err = net.Listen("unix", path)
 			dials = append(dials, "unix/"+path)
 		} else {
-			ln, err = net.Listen("tcp", "127.0.0.1:0")
+			ln, err = hx.Listen("tcp", "127.0.0.1:0")
 			if err == nil {
 				dials = append(dials, ln.Addr().String())
 				if c.Upstream == "tls" {
@@ -340,7 +340,7 @@ func runCase(t hx.TB, c c3case, dir string) {
 	if c.Transport == "unix" {
 		front, err = net.Listen("unix", filepath.Join(dir, fmt.Sprintf("front-%d.sock", time.Now().UnixNano())))
 	} else {
-		front, err = net.Listen("tcp", "127.0.0.1:0")
+		front, err = hx.Listen("tcp", "127.0.0.1:0")
 	}
 	if err != nil {
 		t.Fatalf("front listen: %v", err)
@@ -356,7 +356,7 @@ func runCase(t hx.TB, c c3case, dir string) {
 		srv.VerifHandle(conn)
 	}()
 	// ---- the client ----
-	raw, err := net.Dial(front.Addr().Network(), front.Addr().String())
+	raw, err := hx.Dial(front.Addr().Network(), front.Addr().String())
 	if err != nil {
 		t.Fatalf("dial: %v", err)
 	}
